@@ -32,7 +32,7 @@ P = {
     "coq_targets": ["Properties/C20.vo", "Run/Eval_C20.vo"],
     "theorems_module": "Properties.C20",
     "theorems": ["C20_load_meets_spec", "C20_env_order_independent", "C20_env_wins_per_leaf", "C20_defaults_fill",
-                 "C20_file_env_equivalent", "C20_env_name_read_back", "C20_merge_later_wins_no_panic", "C20_merge_panic_iff", "C20_in_scope_b_sound",
+                 "C20_file_env_equivalent", "C20_file_env_equivalent_splits", "C20_env_name_read_back", "C20_merge_later_wins_no_panic", "C20_merge_panic_iff", "C20_in_scope_b_sound",
                  "C20_domain_nonvacuous", "C20_split_example", "C20_schema_loader_agree",
                  "C20_F1_refuted", "C20_F1_rows_all_disagree", "C20_F3_refuted", "C20_F4_refuted"],
     "streams": [{
@@ -69,8 +69,12 @@ P = {
                   "path) outside the shapes of the open findings C20-F3/C20-F4, and for every iteration order of every Go map on "
                   "the way, the loaded tree shows at every path the environment's node if there is one, else the file's, else "
                   "the default's (C20_load_meets_spec); corollaries: independence of the enumeration order, environment wins per "
-                  "leaf, defaults fill, file/environment equivalence for every split; merge does not panic on shape-compatible "
-                  "trees.  The schema/loader agreement is a finite vm_compute statement over tables regenerated on every run from "
+                  "leaf, defaults fill, file/environment equivalence for every (file, environment) pair that together shows the "
+                  "configuration and concretely for every subset of its leaves moved to the environment (keep/sel_leaves, lists "
+                  "and nested structures included); the documented naming rule (prefix, _ separator, __ for a literal "
+                  "underscore, upper case) is read back as the path it names; merge panics exactly on a container/other-kind "
+                  "clash reached through nodes of equal kind and otherwise shows later-wins per leaf; the evaluator's finite "
+                  "domain check is proved sound for the theorems' domain.  The schema/loader agreement is a finite vm_compute statement over tables regenerated on every run from "
                   "schema/config.schema.json and the loader's type registries/config structs, with the 10 disagreeing rows recorded "
                   "as C20-F1.  The model is tied to the code by running both on ~1200 (quick) / 30000 (thorough) generated loads per "
                   "run (every observed outcome over 6-30 repetitions must be an outcome of the model for some iteration order) and "
